@@ -8,7 +8,7 @@ CL = {(5, 1): "a non-system observer was shown the deck, burned cards, hole card
 
 
 def run(res, replay=None):
-    return run_actor(res, (5,), CL, (5,), replay=replay,
+    return run_actor(res, (5,), CL, (5, 9), replay=replay,
                      extra_assumptions=["'no hidden card' is checked structurally: deck and burned empty; hole cards and combination absent for every player, except non-folded players once the hand is closed"])
 
 
